@@ -432,6 +432,14 @@ func measureBezier(o bezObs, build func(b *sdf.Bezier), spans [][]v2.Vec, closed
 			o.Err = true
 			return
 		}
+		if o.Id%3 != 1 {
+			// the same builder converted a second time (Polygon() then Mesh2D() is ordinary use): what is measured
+			// is the SECOND polygon - the conversion may not have consumed or altered the curve
+			if p, err = b.Polygon(); err != nil {
+				o.Err = true
+				return
+			}
+		}
 		vs = p.Vertices()
 	}()
 	o.N = len(vs)
